@@ -40,8 +40,10 @@ func init() {
 		{"AG", []string{"AG-*"}},
 		{"SM", []string{"SM-first"}},
 		{"EQ", []string{"EQ-key", "EQ-lift", "EQ-sig-scalars"}},
-	}, map[string]int{"EQ-key": 9, "EQ-lift": 6, "AG-once": 3, "AG-rekey": 2, "AG-merge": 1, "AG-first": 1, "AG-sorted": 1, "AG-collect": 1, "AG-back": 1, "AG-level": 1, "AG-fresh-key": 1},
-		"Every clause of the partition statement is decided over all SSA paths of one iteration of Aggregate's find-or-create loop (lookup loop unrolled), of the collect loop and of the code after it: per goroutine exactly one insertion of its id (append to the matched bucket, lookup ends at the match, or one new bucket with a copy of its signature); on a match with an unequal key the bucket is re-inserted under merge(key, member) and the old key deleted, merge returning a new object; ids pass through sort.Ints after the last append; First is OR-accumulated from the members and published unchanged; every map entry becomes exactly one Bucket; the result refers back to the receiver. Disjointness and exhaustiveness of the id lists follow by induction over the goroutines from exactly-one-insertion and reachable-under-one-key; the argument needs similar to be an equivalence relation at the chosen level whose classes have one shape (equal lengths at every nesting level, otherwise merge indexes past the shorter side): EQ-key, EQ-lift, EQ-sig-scalars decide that on this run.",
+		{"LX", []string{"LX-len", "LX-swo"}},
+		{"BN", []string{"BN-upper", "BN-zero"}},
+	}, map[string]int{"EQ-key": 9, "EQ-lift": 6, "LX-swo": 4, "AG-once": 3, "AG-rekey": 2, "AG-merge": 1, "AG-first": 1, "AG-sorted": 1, "AG-collect": 1, "AG-back": 1, "AG-level": 1, "AG-fresh-key": 1},
+		"Every clause of the partition statement is decided over all SSA paths of one iteration of Aggregate's find-or-create loop (lookup loop unrolled), of the collect loop and of the code after it: per goroutine exactly one insertion of its id (append to the matched bucket, lookup ends at the match, or one new bucket with a copy of its signature); on a match with an unequal key the bucket is re-inserted under merge(key, member) and the old key deleted, merge returning a new object; ids pass through sort.Ints after the last append; First is OR-accumulated from the members and published unchanged; every map entry becomes exactly one Bucket; the result refers back to the receiver. Disjointness and exhaustiveness of the id lists follow by induction over the goroutines from exactly-one-insertion and reachable-under-one-key; the argument needs similar to be an equivalence relation at the chosen level whose classes have one shape (equal lengths at every nesting level, otherwise merge indexes past the shorter side): EQ-key, EQ-lift, EQ-sig-scalars decide that on this run. The buckets are handed out through the sort at the end of Aggregate: its comparators are strict weak orders (LX-swo) and index the other operand only within its length (LX-len, BN-upper, BN-zero), otherwise no partition is returned at all.",
 		"the Go map implements insertion/deletion during iteration as specified (an entry inserted during the range may or may not be visited; the lookup ends at the first match, so it is not)")
 	p("C05", []RuleSel{
 		{"EQ", []string{"EQ-key", "EQ-lift", "EQ-sig-scalars", "EQ-noread", "EQ-merge-class", "EF-fresh-merge"}},
@@ -59,16 +61,18 @@ func init() {
 		{"LX", []string{"LX-swo", "LX-order", "LX-enum", "LX-len"}},
 		{"EQ", []string{"EQ-merge-show"}},
 		{"AG", []string{"AG-first", "AG-collect"}},
-	}, map[string]int{"LX-swo": 4, "LX-order": 3, "LX-enum": 4},
-		"The comparators behind the bucket order (Stack.less, Signature.less, the Aggregate comparator, uint64Slice.Less) are recognised, on the type-checked syntax tree, as lexicographic chains of strict comparisons in which every step is the mirror image of its partner under one consistent bijective renaming that swaps the two operands (including the key computations of Stack.less); a lexicographic product of strict weak orders is a strict weak order, so irreflexivity, asymmetry, transitivity and transitivity of incomparability hold for every set of buckets. LX-order: the first key of the bucket order is 'contains the first goroutine', the first key of Stack.less is the package-main frame count, followed by the per-location counts in ascending constant order with GoMod, GOPATH, GoPkg before Stdlib (more first). LX-enum: every Location stored is a named constant below lastLocation; EQ-merge-show: merged frames keep the left frame's Location and package-main flag, so a merged bucket is ordered by what its members have.",
+		{"LOC", []string{"LOC-all", "LOC-branch"}},
+	}, map[string]int{"LX-swo": 4, "LX-order": 3, "LX-enum": 4, "LOC-all": 2},
+		"The comparators behind the bucket order (Stack.less, Signature.less, the Aggregate comparator, uint64Slice.Less) are recognised, on the type-checked syntax tree, as lexicographic chains of strict comparisons in which every step is the mirror image of its partner under one consistent bijective renaming that swaps the two operands (including the key computations of Stack.less); a lexicographic product of strict weak orders is a strict weak order, so irreflexivity, asymmetry, transitivity and transitivity of incomparability hold for every set of buckets. LX-order: the first key of the bucket order is 'contains the first goroutine', the first key of Stack.less is the package-main frame count, followed by the per-location counts in ascending constant order with GoMod, GOPATH, GoPkg before Stdlib (more first). LX-enum: every Location stored is a named constant below lastLocation; EQ-merge-show: merged frames keep the left frame's Location and package-main flag, so a merged bucket is ordered by what its members have. The order ranks frames by their Location class: every frame of every goroutine is classified, whatever the result for the creator or the frames before it (LOC-all), each root kind with its own class (LOC-branch).",
 		"the First idiom 'if l.First || r.First {return l.First}' is a strict order because exactly one bucket is First (AG-first, SM-first)")
 	p("C06", []RuleSel{
 		{"MO", []string{"MO-range", "MO-source"}},
 		{"LX", []string{"LX-total", "LX-swo"}},
 		{"FL", []string{"FL-reader-fresh"}},
-		{"EF", []string{"EF-globals"}},
+		{"EF", []string{"EF-globals", "EF-immut"}},
+		{"EQ", []string{"EF-fresh-merge"}},
 	}, map[string]int{"MO-range": 6, "MO-source": 1, "LX-total": 1, "FL-reader-fresh": 1},
-		"Every place where Go's randomised map order could reach an output is a range over a map: all of them (in stack, webstack, internal) are enumerated from the type-checked syntax trees and each is classified as any-match (result independent of order), collect-then-totally-sort (the collected slice is sorted by a total order before its first other use; for the buckets: by a comparator that ends in a unique key, LX-total), or the bucket lookup whose first match is unique because similarity is an equivalence (re-using the EQ/AG verdicts of this run); anything else is a violation. Also: no math/rand, clock (other than the exempt HTML timestamp), select, goroutine or pointer formatting in the library (MO-source); the line reader is a fresh local per call and no package-level variable is written after init (FL-reader-fresh, EF-globals), so nothing survives from an earlier call.",
+		"Every place where Go's randomised map order could reach an output is a range over a map: all of them (in stack, webstack, internal) are enumerated from the type-checked syntax trees and each is classified as any-match (result independent of order), collect-then-totally-sort (the collected slice is sorted by a total order before its first other use; for the buckets: by a comparator that ends in a unique key, LX-total), or the bucket lookup whose first match is unique because similarity is an equivalence (re-using the EQ/AG verdicts of this run); anything else is a violation. Also: no math/rand, clock (other than the exempt HTML timestamp), select, goroutine or pointer formatting in the library (MO-source); the line reader is a fresh local per call and no package-level variable is written after init (FL-reader-fresh, EF-globals), so nothing survives from an earlier call. The same snapshot gives the same aggregation every time it is aggregated: aggregation and rendering never write to the snapshot and merges build new values (EF-immut, EF-fresh-merge), so an earlier call cannot change what a later one sees.",
 		"sort.Strings/Ints/Sort produce a unique result for a total order; text/template visits map keys in sorted order; os/file-system contents are part of the input")
 	p("C14", []RuleSel{
 		{"EF", []string{"EF-immut", "EF-globals", "EF-opts", "EF-tpl"}},
@@ -130,16 +134,18 @@ func init() {
 		"fmt pads by rune count of the uncoloured operands")
 	p("C07", []RuleSel{
 		{"SM", []string{"SM-ref", "SM-progress", "SM-looking-clean", "SM-done-remainder"}},
+		{"RX", []string{"RX-model", "RX-status", "RX-elided"}},
 		{"FL", []string{"FL-remainder", "FL-suffix-once", "FL-line-once", "FL-reader-fresh", "FL-fill-account", "FL-fill-err", "FL-err-after-data", "FL-chunk-once", "FL-line-shape"}},
 	}, map[string]int{"SM-ref": 19, "FL-remainder": 3, "FL-suffix-once": 3, "FL-fill-account": 1, "FL-chunk-once": 1},
-		"The transition relation of scan is extracted from SSA (all 19 states × abstract configurations; every path) and compared with the reference automaton refs/scan_automaton.json for every assignment of the line-kind predicates (which line kinds start, continue, end or invalidate a dump); the exclusion facts used by the comparison are themselves verified on the regexp syntax trees. Together with FL-remainder (terminating line + read-ahead returned, no read after the loop), SM-done-remainder and FL-suffix-once (MultiReader(suffix, rest), suffix first) this decides delimitation and resumability at the level of line kinds; every byte the underlying reader delivers reaches the scanner as part of exactly one line, also when it arrives together with the end-of-stream error (FL-fill-account, FL-fill-err, FL-err-after-data, FL-chunk-once, FL-line-shape), so no dump of the stream is skipped. Not decided: that two scans of the same dump text give equal snapshots at value level (follows from C06's determinism rules).",
+		"The transition relation of scan is extracted from SSA (all 19 states × abstract configurations; every path) and compared with the reference automaton refs/scan_automaton.json for every assignment of the line-kind predicates (which line kinds start, continue, end or invalidate a dump); the exclusion facts used by the comparison are themselves verified on the regexp syntax trees. Together with FL-remainder (terminating line + read-ahead returned, no read after the loop), SM-done-remainder and FL-suffix-once (MultiReader(suffix, rest), suffix first) this decides delimitation and resumability at the level of line kinds; every byte the underlying reader delivers reaches the scanner as part of exactly one line, also when it arrives together with the end-of-stream error (FL-fill-account, FL-fill-err, FL-err-after-data, FL-chunk-once, FL-line-shape), so no dump of the stream is skipped; which lines continue a dump rests on the line patterns accepting everything the runtime prints (RX-model, RX-status, RX-elided: inclusion of the printer model). Not decided: that two scans of the same dump text give equal snapshots at value level (follows from C06's determinism rules).",
 		"the reference automaton is the documented line grammar")
 	p("C08", []RuleSel{
-		{"SM", []string{"SM-ref", "SM-raceidx", "SM-deref", "SM-first", "SM-append", "RX-groups"}},
+		{"SM", []string{"SM-ref", "SM-raceidx", "SM-deref", "SM-first", "SM-append", "RX-groups", "SM-done-remainder"}},
 		{"RX", []string{"RX-race*"}},
 		{"BN", []string{"RACE-*"}},
-	}, map[string]int{"SM-ref": 19, "SM-raceidx": 2},
-		"Race half of the scanner automaton compared with the reference (one goroutine appended per operation header with id/address/kind taken from the right capture groups, creation frames appended to the goroutine whose id matched, unknown id ⇒ error, footer ends the report), index facts for goroutineIndex (SM-raceidx, SM-deref), language inclusion of tsan's Go report line shapes in the three race patterns (RX-race), IsRace reads the first goroutine's address (RACE-israce). Not decided: numeric value of addresses; IsRace for address 0.",
+		{"FL", []string{"FL-remainder"}},
+	}, map[string]int{"SM-ref": 19, "SM-raceidx": 2, "FL-remainder": 3},
+		"Race half of the scanner automaton compared with the reference (one goroutine appended per operation header with id/address/kind taken from the right capture groups, creation frames appended to the goroutine whose id matched, unknown id ⇒ error, footer ends the report), index facts for goroutineIndex (SM-raceidx, SM-deref), language inclusion of tsan's Go report line shapes in the three race patterns (RX-race), IsRace reads the first goroutine's address (RACE-israce). Not decided: numeric value of addresses; IsRace for address 0. The closing separator is consumed by the scanner, so what was read ahead behind it (a second report, the test output) has to be handed back by ScanSnapshot after the loop (SM-done-remainder, FL-remainder).",
 		"refs/printer_formats.json reflects tsan_report.cpp (Go branch)")
 	p("C09", []RuleSel{
 		{"FL", []string{"FL-chunk-once", "FL-line-shape", "FL-err-after-data", "FL-fill-account", "FL-fill-slide", "FL-fill-guard", "FL-fill-err", "FL-reader-fresh", "FL-fill-retry", "FL-err-prec", "FL-fill-once"}},
@@ -151,16 +157,18 @@ func init() {
 		"io.Reader contract: 0 <= n <= len(p)")
 	p("C10", []RuleSel{
 		{"SM", []string{"SM-cut-forward", "SM-cur-only", "SM-append", "SM-panic", "SM-deref"}},
-		{"FL", []string{"FL-err-prec", "FL-snapshot", "FL-fill-account", "FL-fill-err", "FL-err-after-data", "NM-gate", "LOC-gate", "AUG-gate"}},
+		{"FL", []string{"FL-err-prec", "FL-snapshot", "FL-fill-account", "FL-fill-err", "FL-err-after-data", "FL-fill-guard", "FL-reader-fresh", "NM-gate", "LOC-gate", "AUG-gate"}},
+		{"RB", []string{"RB-writers"}},
 		{"BN", []string{"WEB-trunc", "BN-neg", "BN-idiom", "BN-zero", "BN-upper"}},
 		{"LOC", []string{"LOC-all"}},
 	}, map[string]int{"FL-err-prec": 2, "FL-snapshot": 1, "SM-cur-only": 5, "SM-cut-forward": 1},
-		"A reader failure is returned as exactly that error unless it is nil/EOF (FL-err-prec over all paths of the scan loop); a snapshot is returned iff a goroutine header was seen (FL-snapshot); data delivered together with an error is not lost and the error is reported after it (FL-fill-account, FL-fill-err, FL-err-after-data); goroutines before the cut are never written again (SM-cur-only, SM-append over the extracted automaton, whose fixpoint is closed under end-of-stream in every configuration: SM-panic, SM-deref); an unterminated last line is not forwarded when it may be the head of a dump line (SM-cut-forward); naming, path guessing and source augmentation of what was parsed run whenever their option is set, whatever the error (NM-gate, LOC-gate, AUG-gate), so the earlier goroutines get the same post-processing as in the uncut parse; no constant index or computed bound on the way can fail on the shapes a cut line produces (BN-neg, BN-idiom, BN-zero, BN-upper). Not decided: value-level equality of the earlier goroutines with the uncut parse.",
+		"A reader failure is returned as exactly that error unless it is nil/EOF (FL-err-prec over all paths of the scan loop); a snapshot is returned iff a goroutine header was seen (FL-snapshot); data delivered together with an error is not lost and the error is reported after it (FL-fill-account, FL-fill-err, FL-err-after-data); goroutines before the cut are never written again (SM-cur-only, SM-append over the extracted automaton, whose fixpoint is closed under end-of-stream in every configuration: SM-panic, SM-deref); an unterminated last line is not forwarded when it may be the head of a dump line (SM-cut-forward); naming, path guessing and source augmentation of what was parsed run whenever their option is set, whatever the error (NM-gate, LOC-gate, AUG-gate); the bytes delivered with the failing Read are split into lines like any others (FL-fill-guard: the newline search precedes the pending-error test) and nothing of one call's reader — cursors or a pending error — survives into the next (FL-reader-fresh, RB-writers), so the earlier goroutines get the same post-processing as in the uncut parse; no constant index or computed bound on the way can fail on the shapes a cut line produces (BN-neg, BN-idiom, BN-zero, BN-upper). Not decided: value-level equality of the earlier goroutines with the uncut parse.",
 		"")
 	p("C11", []RuleSel{
 		{"FL", []string{"FL-fill-once", "FL-fill-guard", "FL-write-now", "FL-remainder", "FL-unbuffered", "FL-suffix-once"}},
 		{"RB", []string{"RB-nonempty", "RB-inv", "RB-writers"}},
-	}, map[string]int{"FL-fill-once": 1, "FL-fill-guard": 1, "FL-write-now": 1, "FL-unbuffered": 2, "RB-nonempty": 1, "RB-inv": 1},
-		"The three mechanisms the property rests on are decided over all paths: fill returns after the first Read that delivers data or an error (FL-fill-once) and is reached only when no complete line is buffered (FL-fill-guard); each pass-through line is written by the very iteration that read it, before the next read (FL-write-now, FL-line-once); once the terminating line is known no further read happens (FL-remainder); the CLI writes to unbuffered stdout/stderr and re-feeds the remainder without reading ahead (FL-unbuffered, FL-suffix-once); the slice handed to Read always has room for at least one byte (RB-nonempty, from the inferred cursor invariant), so a blocked read is waiting for data and never spinning on an empty buffer. Not decided: scheduling of the OS pipe.",
+		{"SM", []string{"SM-ref", "SM-looking-clean"}},
+	}, map[string]int{"FL-fill-once": 1, "FL-fill-guard": 1, "FL-write-now": 1, "FL-unbuffered": 2, "RB-nonempty": 1, "RB-inv": 1, "SM-ref": 19},
+		"The three mechanisms the property rests on are decided over all paths: fill returns after the first Read that delivers data or an error (FL-fill-once) and is reached only when no complete line is buffered (FL-fill-guard); each pass-through line is written by the very iteration that read it, before the next read (FL-write-now, FL-line-once); once the terminating line is known no further read happens (FL-remainder); the CLI writes to unbuffered stdout/stderr and re-feeds the remainder without reading ahead (FL-unbuffered, FL-suffix-once); the slice handed to Read always has room for at least one byte (RB-nonempty, from the inferred cursor invariant), so a blocked read is waiting for data and never spinning on an empty buffer; which line ends a dump — the first line that cannot belong to it, so that the snapshot is handed out without waiting for more — is the reference automaton's decision (SM-ref). Not decided: scheduling of the OS pipe.",
 		"os.Stdout and colorable writers are unbuffered")
 }
